@@ -90,7 +90,7 @@ proofs! {
 }
 
 // x == y  <=>  x.to_string() == y.to_string()   (real Display + core::fmt on both sides)
-[] fn c12_langid_eq_iff_string_eq() {
+[string] fn c12_langid_eq_iff_string_eq() {
     let (x, mx) = sym::any_langid(1);
     let (y, my) = sym::any_langid(1);
     let sx = x.to_string();
@@ -102,7 +102,7 @@ proofs! {
 }
 
 // li == &str  <=>  the string equals the canonical text
-[] fn c12_langid_eq_str() {
+[string] fn c12_langid_eq_str() {
     let (x, mx) = sym::any_langid(1);
     let buf: [u8; 16] = k::bytes();
     let n = k::usize();
